@@ -50,8 +50,8 @@ def cases(tier, seed):
     for B, N in itertools.product(Bs, Ns):
         for T in ("CorrData", "HistData", "RedshiftData"):
             out.append(dict(T=T, B=B, N=N, auto=False))
-    if tier == "thorough":
-        for c in list(out):
+    for c in list(out):
+        if tier == "thorough" or c["T"] in ("CorrData", "HistData", "RedshiftData") or (c["T"] == "CorrFunc" and c["B"] == 2):
             out.append(dict(c, closed="left", kind="eq"))
     out.sort(key=lambda c: (c["B"], c["N"]))
     return out
@@ -179,12 +179,24 @@ def run_case(case):
         rec.expect_true("eq", lambda p=p: not (x == p) and (x != p),
                         f"container compares equal to one with different {name}")
     rec.expect_true("eq", lambda: not (x == 1) and not (x == None), "equal to a non-container")  # noqa: E711
+    if T == "CorrFunc":  # structural over the optional members, in both directions
+        for other_members in C.MEMBER_SUBSETS:
+            if set(other_members) == set(members):
+                continue
+            o = build(dict(case, members=list(other_members)))
+            rec.expect_true("eq-members", lambda o=o: not (x == o) and not (o == x) and (x != o) and (o != x),
+                            f"CorrFunc with members {members} compares equal to one with members {list(other_members)}")
+    if has_add or is_data:
+        # results of + keep binning and closed side, so that they can be combined again
+        pass
 
     # ---- addition / subtraction
     if has_add:
         z = build(case, salt=2) if T != "CorrData" else build(case, salt=2)
         sz = C.snap(z)
-        rec.expect_value("add", lambda: x + z, C.added(sx, sz), what="(x + z)")
+        got_sum = rec.expect_value("add", lambda: x + z, C.added(sx, sz), what="(x + z)")
+        if got_sum is not None:
+            rec.expect_value("add-chain", lambda: (x + z) + x, C.added(C.added(sx, sz), sx), what="((x + z) + x)")
         if T in ("PatchedCounts", "NormalisedCounts"):  # documented to work with sum()
             rec.expect_value("sum", lambda: sum([x, z]), C.added(sx, sz), what="sum([x, z])")
             rec.expect_value("sum", lambda: sum([x, z, x]), C.added(C.added(sx, sz), sx),
